@@ -375,6 +375,13 @@ def mk_slice(base: Term, lo: Term, hi: Term, step: Term) -> Term:
         lo = NONE
     if step == C(1):
         step = NONE
+    # xs[prefixlen(P, xs):] == dropwhile(P, xs) ; xs[:prefixlen(P, xs)] == takewhile(P, xs)   (see sa/desugar.py)
+    def plen(t):
+        return t[0] == "call" and t[1] == "sa.prefixlen" and len(t[2]) == 2 and t[2][1] == base
+    if step == NONE and hi == NONE and plen(lo):
+        return ("call", "itertools.dropwhile", (lo[2][0], base), ())
+    if step == NONE and lo == NONE and plen(hi):
+        return ("call", "itertools.takewhile", (hi[2][0], base), ())
     return ("slice", base, lo, hi, step)
 
 
